@@ -112,7 +112,7 @@ func c05Build(s c05Spec, ops []c05Operand) *progCase {
 	switch s.Mode {
 	case 0:
 		le, re = L.Lit("l"), R.Lit("r")
-	case 1:
+	case 1, 3:
 		if L.NoVar || (!unaryForm && R.NoVar) {
 			return nil
 		}
@@ -170,6 +170,47 @@ func c05Build(s c05Spec, ops []c05Operand) *progCase {
 	body := append(pre, Ex(Asg("=", V("r"), e)), c05Show(V("r")))
 	body = append(body, post...)
 	p := &Program{Funcs: []*Func{c05Fn, c05Side}}
+	if s.Mode == 3 {
+		// the operands arrive as parameters of a user function and the operator is applied there
+		sub := func(x Expr) Expr {
+			if x == nil {
+				return nil
+			}
+			if id, ok := x.(*Ident); ok {
+				return V(map[string]string{"a": "p", "b": "q"}[id.Name])
+			}
+			return x
+		}
+		var pe Expr
+		var ppost []Stmt
+		switch s.Form {
+		case "bin":
+			pe = Bin(s.Op, sub(le), sub(re))
+		case "short":
+			pe = Bin(s.Op, sub(le), CallE(V("side"), sub(re)))
+		case "is":
+			pe = &IsExpr{sub(le), s.Op}
+		case "un":
+			pe = Un(s.Op, sub(le))
+		case "incdec":
+			if s.Post {
+				pe = &Postfix{s.Op, sub(le)}
+			} else {
+				pe = Un(s.Op, sub(le))
+			}
+			ppost = []Stmt{c05Show(sub(le))}
+		}
+		fbody := append([]Stmt{Ex(Asg("=", V("r"), pe)), c05Show(V("r"))}, ppost...)
+		p.Funcs = append(p.Funcs, &Func{Name: "opf", Params: []string{"p", "q"}, Body: Blk(fbody...)})
+		args := []Expr{V("a")}
+		if !unaryForm {
+			args = append(args, V("b"))
+		}
+		body = append(append([]Stmt{}, pre...), Ex(CallE(V("opf"), args...)))
+		if s.Form == "incdec" {
+			body = append(body, c05Show(V("a"))) // the caller's variable is untouched: scalars are passed by value
+		}
+	}
 	if s.Mode == 2 {
 		p.Rules = []*Rule{{Body: Blk(body...)}}
 	} else {
@@ -504,11 +545,11 @@ func c05Kind(o c05Operand) string {
 func init() {
 	fw.Register(&fw.Prop{
 		ID: "C05",
-		Rule: "every binary operator x every ordered pair of the operand alphabet x three supply modes (literal, variables, document fields); every unary operator, ++/-- in both positions, `is` x 10 type names, " +
+		Rule: "every binary operator x every ordered pair of the operand alphabet x four supply modes (literal, variables, document fields, parameters of a user function that applies the operator); every unary operator, ++/-- in both positions, `is` x 10 type names, " +
 			"short-circuit probes with a tracing call, and every operator as ONE expression site evaluated over the whole sequence of operand pairs (forward and reversed, ending in a failing pair); tracing calls in every operand position of every operator and composite form incl. 8-key object literals (order and extent of evaluation); a number in a variable / member / array cell / document field with every derived form (string form in + and ~, rendering, JSON text, arithmetic, comparison) taken before and after each ordered pair of 10 ways to change it; every string d.dd / dd.dd as a number; a state is a table cell (form, operator, left kind, right kind, outcome); non-trivial = cells whose model result is a value; numeric results are compared as doubles",
 		Plan: func(t fw.Tier) int { return len(c05Operands(t == fw.Thorough)) + 1 },
 		Bound: func(t fw.Tier) string {
-			return fmt.Sprintf("operand alphabet of %d values, all ordered pairs, all operators, 3 supply modes", len(c05Operands(t == fw.Thorough)))
+			return fmt.Sprintf("operand alphabet of %d values, all ordered pairs, all operators, 4 supply modes", len(c05Operands(t == fw.Thorough)))
 		},
 		Assumptions: []string{"reference tables DESIGN.md 3.2-3.8 as implemented in mc/refsem", "Go regexp is RE2", "strconv.ParseFloat decides which strings are numerals"},
 		Run: func(c *fw.Ctx, u int) {
@@ -553,7 +594,7 @@ func init() {
 					return s
 				}, func() *fw.Violation { return c05Check(c, s, ops) })
 			}
-			for mode := 0; mode < 3; mode++ {
+			for mode := 0; mode < 4; mode++ {
 				for r := range ops {
 					for _, op := range c05BinOps {
 						do(c05Spec{Form: "bin", Op: op, L: u, R: r, Mode: mode})
